@@ -36,7 +36,8 @@ def _mk(kind, uid):
 
 def run_case(case):
     """case = (role, slots, awaiting, reqs)  reqs = [(begin, end), ...]"""
-    role, slots, awaiting, reqs = case
+    role, slots, awaiting, reqs = case[:4]
+    concurrent = len(case) > 4 and case[4]
     w = World1(role, S=CFG["S"], T=CFG["T"])
     try:
         c = w.c
@@ -105,7 +106,7 @@ def run_case(case):
         first_class = None
         for i, (b, e) in enumerate(reqs):
             w.advance(1.0)
-            v = one_request(w, truth, last, b, e, awaiting, i, first_class, case)
+            v = one_request(w, truth, last, b, e, awaiting, i, first_class, case, concurrent=concurrent)
             if v:
                 return v
             first_class = req_class(b, e, last)
@@ -132,7 +133,7 @@ def req_class(b, e, last):
     return f"{bc}+{ec}"
 
 
-def one_request(w, truth, last, b, e, awaiting, idx, first_class, case):
+def one_request(w, truth, last, b, e, awaiting, idx, first_class, case, concurrent=False):
     c = w.c
     st0 = c.connection_state.name
     live0 = num_out(c)
@@ -143,10 +144,25 @@ def one_request(w, truth, last, b, e, awaiting, idx, first_class, case):
     valid = 1 <= b <= last and (e == 0 or e >= b)
     R = last if (e == 0 or e > last) else e
     w.take()
-    w.peer("2", None, [(7, b), (16, e)])
-    out = w.take()
+    if concurrent:
+        # one fixed interleaving: the transport is congested, the reply parks in its first drain(); the application
+        # sends a new message from another task meanwhile; then the congestion ends (FIFO wake-up)
+        from asyncfix import FIXMessage
+        w.writer.pause()
+        w.peer("2", None, [(7, b), (16, e)])
+        t = w.loop.create_task(w.c.send_msg(FIXMessage("D", {11: "live", 55: "X"})))
+        w.run()
+        w.writer.resume()
+        w.run()
+        out = [raw for raw in w.take() if b"\x0111=live\x01" not in raw]
+        sent_live = w.writer.out and any(b"\x0111=live\x01" in raw for raw in w.writer.out)
+    else:
+        w.peer("2", None, [(7, b), (16, e)])
+        out = w.take()
     rc = req_class(b, e, last)
     which = "first" if idx == 0 else "second"
+    if concurrent:
+        which += "+concurrent_send"
     sfx = f"{rc}|{which}"
     det = {"begin": b, "end": e, "last": last, "state_before": st0, "state_after": c.connection_state.name,
            "truth": {n: (t["kind"], t.get("d", {}).get("35")) for n, t in truth.items()},
@@ -168,6 +184,11 @@ def one_request(w, truth, last, b, e, awaiting, idx, first_class, case):
         frames.append((refs.fdict(f), f, raw))
         d = frames[-1][0]
         det["reply"].append((d.get("35"), d.get("34"), d.get("43"), d.get("36")))
+    if concurrent:
+        # the live message took the next number
+        live0 += 1
+        if stored0:
+            stored0 = (stored0[0], stored0[1] + 1)
     if live1 != live0 or (stored1 and stored0 and stored1[1] not in (stored0[1], live0)):
         return V("side_effect_next_out", "afterwards the next outbound number is what it was before, also when the request is invalid",
                  live=(live0, live1), stored=(stored0, stored1))
@@ -181,6 +202,8 @@ def one_request(w, truth, last, b, e, awaiting, idx, first_class, case):
             return V("reply_contains_foreign_session_message", "every journaled application message in the range (of this session) is retransmitted")
     lo, hi = (b, R) if valid else (None, None)
     for n in sorted(set(rows0) | set(rows1)):
+        if concurrent and n == last + 1:
+            continue  # the live message
         inside = valid and lo <= n <= hi
         if not inside and rows0.get(n) != rows1.get(n):
             return V("side_effect_rows_outside_range", "afterwards the journaled messages outside the range are what they were before",
@@ -259,6 +282,9 @@ def cases(quick):
                         pairs = [(b, e) for b in vals for e in vals]
                     for p in pairs:
                         out.append((role, slots, awaiting, [p]))
+                    if role == "acceptor" and not awaiting:
+                        for p in [(1, 0), (2, 0), (2, last - 1), (1, last), (last, 0)]:
+                            out.append((role, slots, awaiting, [p], True))
                     # second request after a first one
                     red = [(1, 0), (2, 0), (2, 3), (last, 0), (1, 2), (3, 3), (last + 1, 0)]
                     if role == "acceptor" and (not quick or not awaiting):
@@ -280,7 +306,7 @@ def run(ctx):
     nt = 0
     shapes = set()
     for case, v in zip(cs, res):
-        shapes.add((case[0], case[1], case[2]))
+        shapes.add((case[0], case[1], case[2], len(case) > 4))
         if "app" in case[1] and len(set(case[1])) > 1:
             nt += 1
         if v:
@@ -295,8 +321,8 @@ def run(ctx):
 
 
 def replay(ctx, rep):
-    role, slots, awaiting, reqs = rep["case"]
+    role, slots, awaiting, reqs = rep["case"][:4]
     if "S" in rep:
         CFG["S"], CFG["T"] = rep["S"], rep["T"]
-    v = run_case((role, tuple(slots), awaiting, [tuple(r) for r in reqs]))
+    v = run_case((role, tuple(slots), awaiting, [tuple(r) for r in reqs]) + tuple(rep["case"][4:]))
     return [v] if v else []
